@@ -14,7 +14,8 @@
 //   VP  id N D k X[N*D]                    tsne::VpTree create + search of every sample for k results
 //                                          -> T <preorder dump: ( item thr L R ) / - for NULL> | per query: idx:dist ...
 //   API id N D d perp theta seed X[N*D]    tapkee::embed(tDistributedStochasticNeighborEmbedding)
-//                                          -> OK rows cols Y[rows*cols] | EXC name | UNDOC what
+//                                          -> OK rows cols Y[rows*cols] | <last logged iteration> <its KL error>
+//                                             or EXC name / UNDOC what
 #include <cmath>
 #include <csignal>
 #include <cstdio>
@@ -100,6 +101,31 @@ static void pd(double x)
 {
     printf(" %a", x);
 }
+
+// captures "Iteration <i>: error is <C>" (message_info of TSNE::run): the KL divergence the library itself
+// reports for its internal P and the current map
+struct CaptureLogger : public tapkee::LoggerImplementation
+{
+    std::string last_error_line;
+    virtual void message_info(const std::string& msg)
+    {
+        if (msg.rfind("Iteration ", 0) == 0)
+            last_error_line = msg;
+    }
+    virtual void message_warning(const std::string&)
+    {
+    }
+    virtual void message_debug(const std::string&)
+    {
+    }
+    virtual void message_error(const std::string&)
+    {
+    }
+    virtual void message_benchmark(const std::string&)
+    {
+    }
+};
+static CaptureLogger* g_logger = nullptr;
 
 typedef tsne::VpTree<tsne::DataPoint, tsne::euclidean_distance> Vp;
 
@@ -324,6 +350,13 @@ int main()
                 for (int j = 0; j < D; j++)
                     X(j, i) = tk.d();
             srand(seed);
+            if (!g_logger)
+            {
+                g_logger = new CaptureLogger();
+                Logging::instance().set_logger_impl(g_logger); // Logging owns it from now on
+                Logging::instance().enable_info();
+            }
+            g_logger->last_error_line.clear();
             std::vector<IndexType> idx(N);
             for (int i = 0; i < N; i++)
                 idx[i] = i;
@@ -358,6 +391,19 @@ int main()
                 for (Eigen::Index i = 0; i < E.rows(); i++)
                     for (Eigen::Index j = 0; j < E.cols(); j++)
                         pd(E(i, j));
+                // "Iteration 999: error is C" -> " | 999 C"
+                {
+                    int it = -1;
+                    double C = 0;
+                    const std::string& m = g_logger->last_error_line;
+                    size_t p1 = m.find(": error is ");
+                    if (p1 != std::string::npos)
+                    {
+                        it = atoi(m.c_str() + 10);
+                        C = strtod(m.c_str() + p1 + 11, nullptr);
+                    }
+                    printf(" | %d %a", it, C);
+                }
                 printf("\n");
             }
             catch (const tapkee::wrong_parameter_error&)
